@@ -45,9 +45,12 @@ ASSUMPTIONS = ["valgrind/callgrind instruction counts of CPython's _sre engine a
 REQUIRED_MONITORS = ["growth-rule", "short-input-cap", "harvest"]
 HERE = os.path.dirname(os.path.dirname(os.path.abspath(__file__)))
 
-GENERIC_ATOMS = ["a", "1", "-", ".", ":", "/", "a-", "1.", "a1", ".1", "-a", "a:", "ab", " ", "@", "A", "_"]
-GENERIC_PREFIX = ["", "a", "1", "a-1", "RC-", "x-1:", "a-0:1-", "n:s:", "F-22-20150522", "1."]
-GENERIC_SUFFIX = ["", "!", "\n", "!x", ".x86_64", "-"]
+GENERIC_ATOMS = ["a", "1", "-", ".", ":", "/", "a-", "1.", "a1", ".1", "-a", "a:", "ab", " ", "@", "A", "_",
+                 "a/", "/a", "a.", "1-", "-1", "a-a", "1.1", ":a", "a-1.", "C", "Ca", "aA", ",", "1,", "a,"]
+GENERIC_BLOCKS = [["a", "-", "1"], ["/", "-", "."], ["a", ":", "1"], ["1", ".", "1"], ["a", "-", "a"], ["a/", "a-", "a."],
+                  ["-", ":", "-"], ["A", "a", "-"]]
+GENERIC_PREFIX = ["", "a", "1", "RC-", "a-0:1-", "n:s:", "F-22-20150522"]
+GENERIC_SUFFIX = ["", "!", "\n", ".x86_64"]
 SENTINELS = [("is_valid_release_short", "", "a", "!"), ("is_valid_release_short", "", "a-", "!"), ("is_valid_release_version", "", "1", "x"),
              ("is_valid_release_version", "", "1.", "x"), ("is_valid_release_type", "", "a", "!"), ("is_valid_release_type", "a", "1", "_"),
              ("create_release_id:short", "", "a", "!"), ("create_release_id:version", "", "1", "!"), ("parse_release_id", "", "a-", ""),
@@ -342,6 +345,12 @@ def run_shard(ctx):
             for pump in GENERIC_ATOMS:
                 for suf in GENERIC_SUFFIX:
                     families.append({"prefix": pre, "pump": pump, "suffix": suf, "target": {"kind": "callable", "name": name}})
+    for name in hv["targets"]:
+        for blocks in GENERIC_BLOCKS:
+            for pre in ("", "a-0:", "RC-"):
+                for suf in ("", "!", ".x86_64"):
+                    families.append({"prefix": pre, "pump": "", "blocks": blocks, "suffix": suf,
+                                     "target": {"kind": "callable", "name": name}})
     sentinel_ids = set()
     for (name, pre, pump, suf) in SENTINELS:
         if name in hv["targets"]:
